@@ -67,6 +67,14 @@ def gen_primary(rng, pid, kinds=None, dtypes=(None, "float32", "float64"), dt=No
             "dtype": rng.choice(list(dtypes))}
 
 
+def gen_price_scale(rng, pkind):
+    """an initial state that quotes the market far from 1 (pennies ... ten thousands); None = the documented default"""
+    if pkind in RATE_KINDS or rng.chance(0.7):
+        return None
+    s0 = rng.choice([1e-3, 0.07, 25.0, 100.0, 1e4])
+    return {"HestonStock": [s0, 0.05], "RoughBergomiStock": [s0, 0.05]}.get(pkind, [s0])
+
+
 def gen_strike(rng):
     return rng.choice([0.8, 0.9, 0.95, 1.0, 1.0, 1.0, 1.03125, 1.05, 1.1, 1.25])
 
